@@ -1046,23 +1046,21 @@ where
         for packet in packets {
             match &packet {
                 GenericStorePacket::V3_1_1Publish(p) => {
-                    // Add to appropriate QoS tracking set
-                    match p.qos() {
-                        Qos::AtLeastOnce => {
-                            self.pid_puback.insert(p.packet_id().unwrap());
-                        }
-                        Qos::ExactlyOnce => {
-                            self.pid_pubrec.insert(p.packet_id().unwrap());
-                        }
-                        _ => {
-                            // QoS 0 shouldn't be in store, but handle gracefully
-                            warn!("QoS 0 packet found in store, skipping");
-                            continue;
-                        }
+                    let qos = p.qos();
+                    if qos == Qos::AtMostOnce {
+                        // QoS 0 shouldn't be in store, but handle gracefully
+                        warn!("QoS 0 packet found in store, skipping");
+                        continue;
                     }
-                    // Register packet ID and add to store
+                    // Register packet ID, then track the expected response and add to store.
+                    // A packet whose ID is already in use is skipped entirely.
                     let packet_id = p.packet_id().unwrap();
                     if self.pid_man.register_id(packet_id).is_ok() {
+                        if qos == Qos::AtLeastOnce {
+                            self.pid_puback.insert(packet_id);
+                        } else {
+                            self.pid_pubrec.insert(packet_id);
+                        }
                         if let Err(_e) = self.store.add(packet) {
                             error!("Failed to add packet to store: {:?}", _e);
                         }
@@ -1071,23 +1069,21 @@ where
                     }
                 }
                 GenericStorePacket::V5_0Publish(p) => {
-                    // Add to appropriate QoS tracking set
-                    match p.qos() {
-                        Qos::AtLeastOnce => {
-                            self.pid_puback.insert(p.packet_id().unwrap());
-                        }
-                        Qos::ExactlyOnce => {
-                            self.pid_pubrec.insert(p.packet_id().unwrap());
-                        }
-                        _ => {
-                            // QoS 0 shouldn't be in store, but handle gracefully
-                            warn!("QoS 0 packet found in store, skipping");
-                            continue;
-                        }
+                    let qos = p.qos();
+                    if qos == Qos::AtMostOnce {
+                        // QoS 0 shouldn't be in store, but handle gracefully
+                        warn!("QoS 0 packet found in store, skipping");
+                        continue;
                     }
-                    // Register packet ID and add to store
+                    // Register packet ID, then track the expected response and add to store.
+                    // A packet whose ID is already in use is skipped entirely.
                     let packet_id = p.packet_id().unwrap();
                     if self.pid_man.register_id(packet_id).is_ok() {
+                        if qos == Qos::AtLeastOnce {
+                            self.pid_puback.insert(packet_id);
+                        } else {
+                            self.pid_pubrec.insert(packet_id);
+                        }
                         if let Err(_e) = self.store.add(packet) {
                             error!("Failed to add packet to store: {:?}", _e);
                         }
@@ -1096,11 +1092,11 @@ where
                     }
                 }
                 GenericStorePacket::V3_1_1Pubrel(p) => {
-                    // Pubrel packets expect PUBCOMP response
-                    self.pid_pubcomp.insert(p.packet_id());
-                    // Register packet ID and add to store
+                    // Register packet ID, then track the expected PUBCOMP and add to store.
+                    // A packet whose ID is already in use is skipped entirely.
                     let packet_id = p.packet_id();
                     if self.pid_man.register_id(packet_id).is_ok() {
+                        self.pid_pubcomp.insert(packet_id);
                         if let Err(_e) = self.store.add(packet) {
                             error!("Failed to add packet to store: {:?}", _e);
                         }
@@ -1109,11 +1105,11 @@ where
                     }
                 }
                 GenericStorePacket::V5_0Pubrel(p) => {
-                    // Pubrel packets expect PUBCOMP response
-                    self.pid_pubcomp.insert(p.packet_id());
-                    // Register packet ID and add to store
+                    // Register packet ID, then track the expected PUBCOMP and add to store.
+                    // A packet whose ID is already in use is skipped entirely.
                     let packet_id = p.packet_id();
                     if self.pid_man.register_id(packet_id).is_ok() {
+                        self.pid_pubcomp.insert(packet_id);
                         if let Err(_e) = self.store.add(packet) {
                             error!("Failed to add packet to store: {:?}", _e);
                         }
